@@ -108,8 +108,8 @@ def _mask_obj(o):
     if isinstance(o, bytes):
         return ('b', mask(o))
     if isinstance(o, dict):
-        return tuple(sorted(((_mask_obj(k), _mask_obj(v))
-                                      for k, v in o.items()), key=repr))
+        # member order is part of the response: keep it
+        return tuple((_mask_obj(k), _mask_obj(v)) for k, v in o.items())
     if isinstance(o, (list, tuple)):
         return tuple(_mask_obj(x) for x in o)
     if isinstance(o, float) and o == int(o):
